@@ -20,7 +20,7 @@ import numpy as np
 from common import *
 
 # ONE line: common.run_shards locates a failing ENCLOSURE case by line number assuming a one-line header
-IMPORTS = ("From CV Require Import Base.Cmp Base.LinAlg Model.C10_Conj Model.C10_ConjR. "
+IMPORTS = ("From CV Require Import Base.Cmp Base.LinAlg Model.C10_Conj Model.C10_ConjR Model.C10_Dep Model.C10_Direct Model.C10_Lmrf. "
            "From Coq Require Import QArith Reals String List. From Interval Require Import Tactic. "
            "Import ListNotations. Open Scope string_scope.")
 
@@ -44,6 +44,9 @@ def crvec(v):
 
 def crmat(m):
     return "[" + "; ".join(crvec(r) for r in m) + "]"
+
+# the same, for likelihood formulas whose dependence is a tree of Model/C10_Dep.v read over R (Rdeval (dmono c k))
+ENC_TAC_DEP = "cbv [Rdeval dmono dpown Z.to_nat Pos.to_nat Pos.iter_op Nat.add Q2R Qnum Qden]; " + ENC_TAC
 
 RULE = ("cells: family {Gaussian cov=1/s, prec=s, prec=s*ones(m), legacy-only cov=C/s; GMRF order 0/1/2 x bc zero/periodic/neumann x 1-d/2-d; "
         "RegularizedGaussian/RegularizedGMRF(nonnegativity)} x interface {experimental, legacy} x route {Posterior built directly, "
@@ -71,6 +74,30 @@ def Pow(p):
     for _ in range(p):
         e = Mul(V(), e)
     return e
+
+
+def dmono_tree(c, k):
+    """mirror of Model/C10_Dep.v dmono: c * s^k for an integer k (c * s^p resp. c * (1 / s^p))"""
+    return Mul(Cn(c), Pow(k)) if k >= 0 else Mul(Cn(c), Inv(Pow(-k)))
+
+
+def dquad_tree(a0, a1, a2):
+    """mirror of dquad: a0 + a1 s + a2 s^2"""
+    return Add(Add(Cn(a0), Mul(Cn(a1), V())), Mul(Cn(a2), Mul(V(), V())))
+
+
+def drquad_tree(a0, a1, a2):
+    """mirror of drquad: a0 + a1 / s + a2 / s^2"""
+    return Add(Add(Cn(a0), Mul(Cn(a1), Inv(V()))), Mul(Cn(a2), Mul(Inv(V()), Inv(V()))))
+
+
+def vanish3_tree():
+    return Mul(Mul(Sub(V(), Cn(1)), Sub(V(), Cn(10))), Sub(V(), Cn(100)))
+
+
+def dperturb_tree(e, h):
+    """mirror of dperturb: e + h * (s-1)(s-10)(s-100)"""
+    return Add(e, Mul(h, vanish3_tree()))
 
 
 def d_frac(e, s):
@@ -469,7 +496,8 @@ def sig_shape(iface, spec, shape_obs, k, m, rank):
 
 
 def sig_rate(iface, spec, rate_obs, r, v2):
-    if spec["family"] == "gmrf" and spec["bc"] != "zero" and r is not None and abs((rate_obs - r) - float(SQRT_EPS) * v2 / 2) <= 2e-9 * abs(r):
+    csc = float(Fraction(spec.get("dep_scale") or 1))      # prec = c * s: the regularised factor is that of c (P + sqrt(eps) I)
+    if spec["family"] == "gmrf" and spec["bc"] != "zero" and r is not None and abs((rate_obs - r) - csc * float(SQRT_EPS) * v2 / 2) <= 2e-9 * abs(r):
         return "%s|GMRF:bc=periodic,neumann|rate:sqrt-eps-regularisation" % site(iface)
     return "%s|%s|gamma-rate-not-target-implied" % (site(iface), spec["family"])
 
@@ -613,6 +641,11 @@ def sample_cases(ctx, spec, iface, cell, reuse=None):
         P = np.asarray(g._prec_op.get_matrix().todense(), dtype=float)
         rank = int(g._rank)
         reg = SQRT_EPS if spec["bc"] != "zero" else Fraction(0)
+        if spec.get("dep_scale"):
+            # prec = c * s: the precision at unit hyper-parameter is c * (P + reg I) (the structure matrix itself is not scaled)
+            csc = Fraction(spec["dep_scale"])
+            P = [[csc * frac(x) for x in row] for row in P]
+            reg = csc * reg
     else:
         g = d1 if fam == "gaussian" else d1.gaussian
         # precision at unit hyper-parameter computed by the harness from the construction data in exact rationals
@@ -680,7 +713,18 @@ def sample_cases(ctx, spec, iface, cell, reuse=None):
     cases.append(Case(expr=expr, meta=dict(meta, part="rate"), cell=cell + "/rate", kind="EXACT", impl_fail=fail, signature=sig))
     # --- the likelihood's dependence on the hyper-parameter: model formula (R) vs the implementation's likelihood.logd
     form = None
-    if fam == "gmrf" and n <= 6:
+    enc_tac = ENC_TAC
+    if spec.get("dep_scale") and fam in ("gmrf", "gaussian") and n <= 6:
+        # round 5: the dependence is the monomial tree c * s^k of Model/C10_Dep.v, read over R by Rdeval (C10_probe_sound_on_monomials)
+        csc, kk = Fraction(spec["dep_scale"]), (1 if spec["var"] == "prec" else -1)
+        dep_r = "(Rdeval (dmono %s (%d)))" % (cq(csc), kk)
+        enc_tac = ENC_TAC_DEP
+        if fam == "gmrf":
+            Punit = np.asarray(g._prec_op.get_matrix().todense(), dtype=float)
+            form = "lik_gmrf %s (gmrf_code_rank %s %s %s %s %s) 0 %s %s %s" % (dep_r, rule, bc_coq(spec["bc"]), cnat(spec["order"]), cnat(1), cnat(n), crmat(Punit), crvec(Ax), crvec(b))
+        else:
+            form = ("lik_gauss_prec %s %s %s" if spec["var"] == "prec" else "lik_gauss_cov %s %s %s") % (dep_r, crvec(Ax), crvec(b))
+    elif fam == "gmrf" and n <= 6:
         form = "lik_gmrf (fun s => s) (gmrf_code_rank %s %s %s %s %s) 0 %s %s %s" % (rule, bc_coq(spec["bc"]), cnat(spec["order"]), cnat(2 if spec.get("two_d") else 1), cnat(n), crmat(P), crvec(Ax), crvec(b))
     elif fam == "gaussian" and spec["dep"]["shape"] is None and spec["var"] in ("cov", "prec") and spec["dep"]["entries"][0] in (V(), Inv(V())):
         form = ("lik_gauss_cov (fun s => 1 / s) %s %s" if spec["var"] == "cov" else "lik_gauss_prec (fun s => s) %s %s") % (crvec(Ax), crvec(b))
@@ -703,7 +747,7 @@ def sample_cases(ctx, spec, iface, cell, reuse=None):
         if math.isfinite(l1) and math.isfinite(l2):
             tol = Fraction(1, 10 ** 9) * (1 + frac(abs(l1)) + frac(abs(l2)))
             expr = "(Rabs (%s %s - %s %s - %s) <= %s)%%R" % (form, cr(s1), form, cr(s2), cr(l1 - l2), cr(tol))
-            cases.append(Case(expr=expr, meta=dict(meta, part="lik-form", s1=str(s1), s2=str(s2)), cell=cell + "/lik-form", kind="ENCLOSURE", tac=ENC_TAC))
+            cases.append(Case(expr=expr, meta=dict(meta, part="lik-form", s1=str(s1), s2=str(s2)), cell=cell + "/lik-form", kind="ENCLOSURE", tac=enc_tac))
     return cases
 
 
@@ -965,6 +1009,28 @@ def gen_sample_specs(ctx):
             blk = [[Fraction(2), Fraction(1, 2), 0, 0], [Fraction(1, 2), Fraction(1), 0, 0], [0, 0, Fraction(4), Fraction(-1)], [0, 0, Fraction(-1), Fraction(2)]]   # block-decoupled SPD (L18)
             ent = [Mul(Cn(blk[i][j]), Inv(V()) if kind == "cov" else V()) for i in range(m) for j in range(m)]
             out.append((mk("gaussian", {"var": kind, "dep": dict(array_dep(ent, (m, m)), style=style)}, m=m), "legacy", "gaussian/%s_full/block-decoupled/callable:%s/legacy" % (kind, style)))
+    # ---- round 5 ---------------------------------------------------------------------------------------------------------
+    # monomial dependences c*s / c/s (Model/C10_Dep.v dmono): accepted by the probes for c within tolerance of 1 (experimental) and for
+    # every c by the legacy sampler -- and sampled EXACTLY for every c > 0 (C10_scaled_dependence_exact / C10_probe_sound_on_monomials)
+    F = Fraction
+    for iface, cs_id, cs_rec in [("exp", [1 + F(1, 2 ** 18), 1 - F(1, 2 ** 17)], [1 + F(1, 2 ** 31), 1 - F(1, 2 ** 32)]),
+                                 ("legacy", [F(3), F(1, 4), 1 + F(1, 2 ** 18)], [F(2), F(1, 8), 1 + F(1, 2 ** 31)])]:
+        for j in range(ctx.n(2, 6)):
+            c1, c2 = cs_id[j % len(cs_id)], cs_rec[j % len(cs_rec)]
+            out.append((mk("gaussian", {"var": "prec", "dep": scalar_dep(dmono_tree(c1, 1)), "dep_scale": str(c1)}), iface, "gaussian/prec=c*s/%s" % iface))
+            out.append((mk("gaussian", {"var": "cov", "dep": scalar_dep(dmono_tree(c2, -1)), "dep_scale": str(c2)}), iface, "gaussian/cov=c:s/%s" % iface))
+            bc = ["zero", "neumann", "periodic"][j % 3]
+            out.append((mk("gmrf", {"var": "prec", "dep": scalar_dep(dmono_tree(c1, 1)), "dep_scale": str(c1), "bc": bc, "order": 1, "N": None, "two_d": False}),
+                        iface, "gmrf/%s/prec=c*s/%s" % (bc, iface)))
+    # the sqrt(eps) regularisation where it is NOT small (C10_gmrf_regularised_relative_excess_unbounded): data = a constant shift 2^12
+    # of the field (null space of the periodic/neumann structure matrix) plus O(1) detail -- the conditional's rate is beta + O(1), the
+    # sampler's carries eps * n * 2^24 / 2 = n/8 on top; zero boundary conditions as the control (nothing is added)
+    for bc in ["periodic", "neumann", "zero"]:
+        for iface in ["exp", "legacy"]:
+            m = rng.randint(3, 6)
+            sp = mk("gmrf", {"var": "prec", "dep": scalar_dep(V()), "bc": bc, "order": 1, "N": None, "two_d": False}, m=m)
+            sp["data"] = [str(Fraction(x) + 2 ** 12) for x in sp["data"]]
+            out.append((sp, iface, "gmrf/%s/o1/null-shift2^12/%s" % (bc, iface)))
     # regularized (implicit priors have no density of their own: correspondence of (shape, rate) only)
     for fam, var, dep in [("reggaussian", "cov", scalar_dep(Inv(V()))), ("reggaussian", "prec", scalar_dep(V())), ("reggmrf", "prec", scalar_dep(V()))]:
         for iface in ["exp", "legacy"]:
@@ -1464,6 +1530,57 @@ def probe_cases(ctx):
             a = 1 + F(rng.randint(-40, 40), 2 ** rng.randint(30, 40))
             b = F(rng.randint(-40, 40), 2 ** rng.randint(34, 50))
             deps.append(("raffine", scalar_dep(Add(Mul(Cn(a), Inv(V())), Cn(b)))))
+    # ---- round 5: the classes of Proofs/C10_Probe3.v, written with the model's own class constructors (Model/C10_Dep.v) ----
+    # coq: the Coq term of the tree (None = print the expanded tree); twin: a tree that must get the same verdicts (blindness)
+    klass = []
+    for k in (-3, -2, -1, 0, 1, 2, 3):              # c * s^k, every integer exponent, c at / near / far from 1
+        for c in (F(1), 1 + F(1, 2 ** 18), 1 - F(1, 2 ** 18), 1 + F(1, 2 ** 31), 1 - F(1, 2 ** 32), 1 + F(1, 2 ** 14), F(2), F(1, 10),
+                  1 + F(rng.randint(-60, 60), 2 ** rng.randint(17, 36))):
+            klass.append(("class:mono/k=%d" % k, scalar_dep(dmono_tree(c, k)), "[dmono %s (%d)]" % (cq(c), k), None))
+    for _ in range(ctx.n(12, 120)):                 # a0 + a1 s + a2 s^2 and a0 + a1/s + a2/s^2: inside the inner box, between, outside the outer box
+        sc = rng.choice([1, 1, 8, 64])
+        a0, a1, a2 = F(rng.randint(-40, 40), 10 ** 7) * sc, 1 + F(rng.randint(-40, 40), 10 ** 7) * sc, F(rng.randint(-40, 40), 10 ** 9) * sc
+        klass.append(("class:quad", scalar_dep(dquad_tree(a0, a1, a2)), "[dquad %s %s %s]" % (cq(a0), cq(a1), cq(a2)), None))
+        b0, b1, b2 = F(rng.randint(-40, 40), 10 ** 13) * sc, 1 + F(rng.randint(-40, 40), 10 ** 11) * sc, F(rng.randint(-40, 40), 10 ** 11) * sc
+        klass.append(("class:rquad", scalar_dep(drquad_tree(b0, b1, b2)), "[drquad %s %s %s]" % (cq(b0), cq(b1), cq(b2)), None))
+    # members of the two quadratic classes that agree with the required map at exactly two probe points and miss the third by far:
+    # each probe point is exercised on its own inside the class (h (s-a)(s-b) resp. h (u-a)(u-b), u = 1/s)
+    for (pa, pb), h in [((10, 100), F(1, 10 ** 7)), ((1, 100), F(1, 10 ** 6)), ((1, 10), F(2, 10 ** 7)), ((1, 10), -F(3, 10 ** 7))]:
+        klass.append(("class:quad", scalar_dep(dquad_tree(h * pa * pb, 1 - h * (pa + pb), h)), "[dquad %s %s %s]" % (cq(h * pa * pb), cq(1 - h * (pa + pb)), cq(h)), None))
+    for (ua, ub), h in [((F(1, 10), F(1, 100)), F(1, 10 ** 7)), ((F(1), F(1, 100)), F(1, 10 ** 7)), ((F(1), F(1, 10)), F(1, 10 ** 8))]:
+        klass.append(("class:rquad", scalar_dep(drquad_tree(h * ua * ub, 1 - h * (ua + ub), h)), "[drquad %s %s %s]" % (cq(h * ua * ub), cq(1 - h * (ua + ub)), cq(h)), None))
+    bases = [("id", V()), ("recip", Inv(V())), ("2s", Mul(Cn(2), V())), ("s+2^-14", Add(V(), Cn(F(1, 2 ** 14)))), ("quad", dquad_tree(F(1, 10 ** 6), 1, F(1, 10 ** 8))),
+             ("(1+2^-34)/s", Mul(Cn(1 + F(1, 2 ** 34)), Inv(V())))]
+    for lab0, e in bases:                           # e + h (s-1)(s-10)(s-100) for constant, polynomial and rational h of any size
+        for h in (Cn(F(rng.randint(1, 9) * 10 ** rng.randint(-6, 6))), Mul(Cn(rng.randint(-5, 5) or 1), V()), Inv(V()), Add(Mul(V(), V()), Cn(rng.randint(1, 1000)))):
+            klass.append(("class:blind/" + lab0, scalar_dep(dperturb_tree(e, h)), "[dperturb %s %s]" % (d_coq(e), d_coq(h)), scalar_dep(e)))
+    for lab, dep, coq, twin in klass:
+        if not probe_margin_ok(dep, None) or (twin is not None and not probe_margin_ok(twin, None)):
+            continue
+        f = mk_callable(dep, "s")
+        try:
+            oid = bool(MC._check_conjugate_parameter_is_scalar_identity(f))
+            orec = "PTrue" if MC._check_conjugate_parameter_is_scalar_reciprocal(f) else "PFalse"
+        except Exception as e:
+            cases.append(Case(expr="false", meta={"op": "probe", "dep": dep, "note": "probe raised %r" % e}, cell="probe/" + lab, kind="DECISION"))
+            continue
+        ent = dep["entries"][0]
+        e_id = all(abs(d_frac(ent, x) - x) <= F(1, 10 ** 8) + F(1, 10 ** 5) * x for x in (1, 10, 100))
+        e_rec = "PTrue" if all(abs(d_frac(ent, x) - F(1, x)) <= F(1, 10 ** 9) * max(abs(d_frac(ent, x)), F(1, x)) for x in (1, 10, 100)) else "PFalse"
+        fail = None
+        if (oid, orec) != (e_id, e_rec):
+            fail = "probe decisions (identity=%s, reciprocal=%s) differ from the documented tolerances (%s, %s)" % (oid, orec, e_id, e_rec)
+        extra = "true"
+        if twin is not None:
+            g = mk_callable(twin, "s")
+            tid = bool(MC._check_conjugate_parameter_is_scalar_identity(g))
+            trec = "PTrue" if MC._check_conjugate_parameter_is_scalar_reciprocal(g) else "PFalse"
+            # the theorem's statement on the implementation: the perturbed callable gets the verdicts of the unperturbed one
+            extra = "check_probes %s %s %s && %s" % (fval_coq(twin), cbool(tid), trec, cbool((tid, trec) == (oid, orec)))
+            if fail is None and (tid, trec) != (oid, orec):
+                fail = "adding a multiple of (s-1)(s-10)(s-100) changed a probe verdict: (%s, %s) vs (%s, %s)" % (oid, orec, tid, trec)
+        cases.append(Case(expr="check_probes %s %s %s && %s" % (coq, cbool(oid), orec, extra), meta={"op": "probe", "label": lab, "dep": dep},
+                          cell="probe/" + lab, kind="DECISION", impl_fail=fail, signature="exp.Conjugate|probe-decision" if fail else ""))
     for lab, dep in deps:
         if not probe_margin_ok(dep, None):
             continue
@@ -1498,6 +1615,64 @@ def approx_cases(ctx):
     from cuqi.distribution import LMRF, Gamma, Posterior
     rng = ctx.rng
     cases = []
+    # round 5: the difference operator every LMRF holds, for every boundary condition and field size 2..8 (thorough: ..12), against the
+    # modelled matrix (the statement C10_approx_shape_offset_1d / _never_exact_1d is about)
+    for bc in ["zero", "periodic", "neumann"]:
+        for n in range(2, ctx.n(9, 13)):
+            with QUIET:
+                d = LMRF(0, 0.5, geometry=n, bc_type=bc)
+            D = np.column_stack([np.asarray(d._diff_op @ e, dtype=float) for e in np.eye(n)])
+            rows_ref = n - 1 if bc == "neumann" else n + 1          # documented shapes: N-1 differences, or N+1 with the two boundary terms
+            fail = None
+            if D.shape != (rows_ref, n) or (bc != "zero" and np.any(D @ np.ones(n) != 0)):
+                fail = "LMRF difference operator (%s, n=%d) has shape %s or does not annihilate constants" % (bc, n, D.shape)
+            cases.append(Case(expr="check_diffop %s %s %s" % (bc_coq(bc), cnat(n), cqmat(D)), meta={"op": "diffop", "bc": bc, "n": n},
+                              cell="approx/diff-op/%s" % bc, kind="EXACT", impl_fail=fail, signature="LMRF|difference-operator-shape" if fail else ""))
+    # round 5: 2-D fields (Image2D geometry, N x N): operator vstack([kron(I, D), kron(D, I)]) computed by the model; one draw per
+    # boundary condition and interface, N = 2 (the only square case: neumann) and 3
+    import cuqi
+    for bc in ["zero", "periodic", "neumann"]:
+        for iface in ["approx", "legacy_approx"]:
+            for N in ([2, 3] if iface == "approx" else [rng.choice([2, 3])]):
+                n = N * N
+                x = [dy(rng, -4, 4, 4) for _ in range(n)]
+                if N == 2 and bc == "neumann" and iface == "approx":
+                    x = [Fraction(3, 2)] * n          # the one configuration where the draw IS exact for LMRF.logpdf (C10_approx_exact_2d_iff)
+                alpha, beta = rng.choice([Fraction(1), Fraction(3, 2), Fraction(25, 2)]), rng.choice([Fraction(1, 2), Fraction(1, 1024), Fraction(3)])
+                with QUIET:
+                    d = LMRF(0, lambda s: 1 / s, geometry=cuqi.geometry.Image2D((N, N)), bc_type=bc, name="x")
+                    T = Posterior(d.to_likelihood(np.array([float(v) for v in x])), Gamma(float(alpha), float(beta), name="s"))
+                    smp = construct(iface, T)
+                val, ga, ncalls, scripted, acc = draw(iface, smp)
+                meta = {"op": "approx2d", "iface": iface, "N": N, "x": [str(v) for v in x], "alpha": str(alpha), "beta": str(beta), "bc": bc}
+                cell = "approx/2d/%s/%s" % (bc, iface)
+                if ga is None:
+                    cases.append(Case(expr="false", meta=meta, cell=cell, kind="DECISION")); continue
+                D = np.column_stack([np.asarray(d._diff_op @ e, dtype=float) for e in np.eye(n)])
+                dx = D @ np.array([float(v) for v in x])
+                w = 1.0 / np.sqrt(dx ** 2 + 1e-5)
+                ok_val = float(np.ravel(np.asarray(val, dtype=float))[0]) == scripted
+                rate_ref = float(np.sum(dx ** 2 / np.sqrt(dx ** 2 + 1e-5))) + float(beta)
+                fail, sig = None, ""
+                if abs(ga[0] - (n + float(alpha))) > 1e-12 * (n + float(alpha)):
+                    fail, sig = "Gamma shape %.12g where the documented approximation has len(x) + alpha = %.12g" % (ga[0], n + float(alpha)), "%s|gamma-shape-not-the-documented-approximation" % site(iface)
+                elif abs(1.0 / ga[1] - rate_ref) > 1e-9 * abs(rate_ref):
+                    fail, sig = "Gamma rate %.12g where the smoothed penalty of D x gives %.12g" % (1.0 / ga[1], rate_ref), "%s|gamma-rate-not-the-documented-approximation" % site(iface)
+                # where the theorem says the draw is exact for the LMRF's own density, the target's logd must agree (and only there)
+                exact_cfg = (bc == "neumann" and N == 2 and all(v == x[0] for v in x))
+                if fail is None:
+                    fit = fit_gamma(T, ga[1])
+                    if fit is not None:
+                        k_t, r_t = fit[0], fit[1]
+                        is_exact = abs(ga[0] - k_t) <= 1e-8 * (1 + abs(k_t)) and abs(1.0 / ga[1] - r_t) <= 1e-8 * abs(r_t)
+                        if is_exact != exact_cfg:
+                            fail = ("the Gamma drawn (shape %.9g, rate %.9g) is%s the conditional of the target's own density (shape %.9g, rate %.9g) where C10_approx_exact_2d_iff says it is%s"
+                                    % (ga[0], 1.0 / ga[1], "" if is_exact else " not", k_t, r_t, "" if exact_cfg else " not"))
+                            sig = "%s|2d-exactness-class" % site(iface)
+                expr = "check_approx_op_2d %s %s %s %s %s %s %s %s && check_diffop_2d %s %s %s && %s" % (
+                    bc_coq(bc), cnat(N), cqvec(x), cqvec(w), cq(alpha), cq(beta), cq(ga[0]), cq(Fraction(1) / frac(ga[1])),
+                    bc_coq(bc), cnat(N), cqmat(D), cbool(ok_val))
+                cases.append(Case(expr=expr, meta=meta, cell=cell, kind="EXACT", impl_fail=fail, signature=sig))
     for iface in ["approx", "legacy_approx"]:
         for rep in range(ctx.n(6, 40)):
             n = rng.randint(2, 7)
@@ -1507,7 +1682,7 @@ def approx_cases(ctx):
             if rep == 4:
                 x = [Fraction(0)] * n                      # ... and an all-zero state (the usual initial point)
             alpha, beta = rng.choice([Fraction(1), Fraction(3, 2), Fraction(1, 4), Fraction(25, 2)]), rng.choice([Fraction(1, 2), Fraction(1, 1024), Fraction(3), Fraction(40)])
-            bc = rng.choice(["zero", "periodic", "neumann"])
+            bc = ["zero", "periodic", "neumann"][(rep + rep // 3) % 3]      # every boundary condition in every run, each with two location kinds
             # location: scalar 0 (documented requirement), a zero vector, or -- every third case -- a NON-zero vector whose entries sum to 0
             lockind = ["scalar0", "zerovec", "sumzero"][rep % 3] if n >= 3 else "scalar0"
             locv = [0.0] * n
@@ -1531,8 +1706,11 @@ def approx_cases(ctx):
             dx = D @ np.array([float(v) for v in x])
             w = 1.0 / np.sqrt(dx ** 2 + 1e-5)
             ok_val = float(np.ravel(np.asarray(val, dtype=float))[0]) == scripted
-            expr = "check_approx %s %s %s %s %s %s %s && %s" % (cqmat(D), cqvec(x), cqvec(w), cq(alpha), cq(beta), cq(ga[0]),
-                                                               cq(Fraction(1) / frac(ga[1])), cbool(ok_val))
+            # round 5: the operator is computed by the MODEL (Model/C10_Lmrf.v lmrf_diff_op) -- the object's own operator, observed column
+            # by column, must be that matrix entry by entry (check_diffop), and shape/rate are compared with the model run on ITS operator
+            expr = "check_approx_op %s %s %s %s %s %s %s && check_diffop %s %s %s && %s" % (
+                bc_coq(bc), cqvec(x), cqvec(w), cq(alpha), cq(beta), cq(ga[0]), cq(Fraction(1) / frac(ga[1])),
+                bc_coq(bc), cnat(n), cqmat(D), cbool(ok_val))
             # independent statement of the documented approximation: smoothed l1 penalty of D (x - location)
             t_ref = D @ (np.array([float(v) for v in x]) - np.array(locv))
             rate_ref = float(np.sum(t_ref ** 2 / np.sqrt(t_ref ** 2 + 1e-5))) + float(beta)
@@ -1545,6 +1723,14 @@ def approx_cases(ctx):
                         "gives %.12g" % (locv, 1.0 / ga[1], rate_ref))
                 sig = ("exp.ConjugateApprox|location:nonzero-with-zero-sum-accepted" if iface == "approx" else "legacy.ConjugateApprox|location-ignored") \
                     if lockind == "sumzero" else "%s|gamma-rate-not-the-documented-approximation" % site(iface)
+            if fail is None and lockind != "sumzero":
+                # C10_approx_shape_offset_1d on the implementation: against the target's OWN density (LMRF.logpdf has len(Dx) factors) the drawn
+                # shape is off by exactly len(x) - len(Dx) = -1 (zero, periodic) / +1 (neumann)
+                fit = fit_gamma(T, ga[1])
+                off_ref = 1 if bc == "neumann" else -1
+                if fit is not None and abs((ga[0] - fit[0]) - off_ref) > 1e-7 * (1 + abs(fit[0])):
+                    fail = "Gamma shape %.12g vs the shape %.12g implied by the target's own density: offset %.6g where the theorem has %d" % (ga[0], fit[0], ga[0] - fit[0], off_ref)
+                    sig = "%s|shape-offset-not-len(x)-len(Dx)" % site(iface)
             cases.append(Case(expr=expr, meta=meta, cell="approx/%s/%s/loc:%s" % (bc, iface, lockind), kind="EXACT", impl_fail=fail, signature=sig))
             if n <= 6:
                 # the R-valued formulas of the ConjugateApprox theorems, computed by the model itself (no certificate)
@@ -1641,6 +1827,122 @@ def direct_cases(ctx):
     cases.append(Case(expr=cbool(refused), meta={"op": "direct_refusal"}, cell="direct/refuses-no-sample", kind="DECISION",
                       impl_fail=None if refused else "Direct accepted a target without a working sample()",
                       signature="" if refused else "exp.Direct|no-sample-accepted"))
+    return cases
+
+
+def direct_life_target(name):
+    """constructor of the target of a direct-life cell: a direct_targets() name, 'flaky:<k>' (sample() raises at its k-th call), 'lmrf'"""
+    from cuqi.distribution import Gaussian, LMRF
+    if name.startswith("flaky:"):
+        fail_at = int(name.split(":")[1])
+
+        class Flaky(Gaussian):
+            """a user distribution whose sampling method raises at its k-th call"""
+            def _sample(self, N=1, rng=None):
+                k = self.__dict__.get("_calls", 0)
+                self.__dict__["_calls"] = k + 1
+                if k == self.__dict__.get("_fail_at", -1):
+                    raise RuntimeError("sampling failed")
+                return super()._sample(N, rng)
+
+        def mkf():
+            with QUIET:
+                d = Flaky(np.array([0.5, -1.0]), 0.25)
+            d.__dict__["_fail_at"] = fail_at
+            return d
+        return mkf
+    if name == "lmrf":
+        def mkl():
+            with QUIET:
+                return LMRF(0, 0.5, geometry=4)
+        return mkl
+    return direct_targets()[name]
+
+
+def direct_life_observe(name, ns, nw, sd, ip):
+    """-> (table, obs as a Coq term, independent-oracle failure or None, initial point used).  ip = None: the default initial point."""
+    import cuqi.experimental.mcmc as M
+    fl = lambda a: [frac(v) for v in np.ravel(np.asarray(a, dtype=float))]
+    mk = direct_life_target(name)
+    # the table: consecutive target.sample() calls under the stream, no sampler involved
+    with QUIET:
+        t0 = mk()
+    table, logs_t = [], []
+    with ScriptedRandom(seed=sd) as sr, QUIET:
+        for _ in range(ns + nw + 1):
+            try:
+                table.append(fl(t0.sample()))
+            except Exception:
+                table.append(None)
+            logs_t.append(len(sr.log))
+    with QUIET:
+        tgt = mk()
+        dim = tgt.dim
+    ip_used = [Fraction(v) for v in ip] if ip is not None else [Fraction(1)] * dim
+    obs, smp, raised = None, None, None
+    with ScriptedRandom(seed=sd) as sr, QUIET:
+        try:
+            smp = M.Direct(tgt, initial_point=np.array([float(v) for v in ip_used])) if ip is not None else M.Direct(tgt)
+        except TypeError:
+            obs = "ObsRefused"
+        if smp is not None:
+            try:
+                smp.sample(ns)
+                smp.warmup(nw)
+            except RuntimeError as e:
+                raised = e
+        ncalls = len(sr.log)
+    fail = None
+    if smp is not None:
+        chain = [fl(c) for c in smp._samples]
+        if raised is not None:
+            obs = "ObsRaised %s" % clist([cqvec(c) for c in chain])
+        else:
+            acc = [frac(float(a)) for a in smp._acc]
+            obs = "ObsDone %s %s %s" % (clist([cqvec(c) for c in chain]), cqvec(fl(smp.current_point)), cqvec(acc))
+        # independent statement of the property: the chain is the target's own draws, in order, after the validation draw
+        good = list(table[1:])
+        upto = good.index(None) if None in good else len(good)
+        if table[0] is None:
+            fail = "Direct accepted a target whose sample() raises"
+        elif chain != good[:upto][:len(chain)] or (raised is None and len(chain) != ns + nw) or (raised is not None and len(chain) != upto):
+            fail = "the chain of Direct is not the sequence of the target's own draws on the same random stream after the validation draw (chain %s, target draws %s)" % (
+                [[float(v) for v in c] for c in chain], [None if t is None else [float(v) for v in t] for t in table])
+        elif raised is None and ncalls != logs_t[ns + nw]:
+            fail = "Direct consumed %d generator calls where %d consecutive target.sample() calls consume %d" % (ncalls, ns + nw + 1, logs_t[ns + nw])
+    elif table[0] is not None:
+        fail = "Direct refused a target whose sample() works"
+    return table, obs, fail, ip_used
+
+
+def direct_life_cases(ctx):
+    """round 5 -- the whole life of a Direct object under ONE random stream (Model/C10_Direct.v): constructor (its validation
+    calls target.sample() once and discards the draw), sample(ns), warmup(nw); vs the table of consecutive target.sample() results
+    under the same stream taken without any sampler.  Also targets whose sample() raises: always (refused by the constructor) and at
+    a later call (the exception comes out of sample()/warmup() with the chain built so far)."""
+    cases = []
+    rng = ctx.rng
+    plans = []
+    for name in direct_targets():
+        for rep in range(ctx.n(1, 4)):
+            plans.append(("direct-life/" + name, name, [(1, 0), (2, 1), (0, 2), (3, 2), (0, 0)][(rep + len(plans)) % 5], rep % 2 == 1))
+    plans.append(("direct-life/sample-raises-at-first-call", "flaky:0", (2, 1), False))
+    for j in (1, 2, 3):
+        plans.append(("direct-life/sample-raises-later", "flaky:%d" % j, (3, 1), j == 2))
+    plans.append(("direct-life/sample-raises-in-warmup", "flaky:3", (2, 2), False))
+    plans.append(("direct-life/lmrf-has-no-sample", "lmrf", (1, 1), False))
+    for cell, name, (ns, nw), with_ip in plans:
+        sd = rng.randint(0, 10 ** 6)
+        ip = None
+        if with_ip:
+            with QUIET:
+                dim = direct_life_target(name)().dim
+            ip = [str(Fraction(rng.randint(-8, 8), 4)) for _ in range(dim)]
+        table, obs, fail, ip_used = direct_life_observe(name, ns, nw, sd, ip)
+        tab = clist(["None" if t is None else "(Some %s)" % cqvec(t) for t in table])
+        cases.append(Case(expr="check_direct_life %s %s %s %s (%s)" % (tab, cqvec(ip_used), cnat(ns), cnat(nw), obs),
+                          meta={"op": "direct_life", "target": name, "ns": ns, "nw": nw, "seed": sd, "initial_point": ip}, cell=cell, kind="EXACT",
+                          impl_fail=fail, signature="exp.Direct|chain-is-not-the-target-draws" if fail else ""))
     return cases
 
 
@@ -1828,8 +2130,9 @@ def run(ctx):
         cases += probe_cases(ctx)
     if not flt0 or want("approx/") or re.search(r"[a-z]", flt0):      # family-level: generated whenever a filter might concern it
         cases += approx_cases(ctx)
-    if not flt0 or want("direct/") or re.search(r"[a-z]", flt0):      # family-level: generated whenever a filter might concern it
+    if not flt0 or want("direct/") or want("direct-life/") or re.search(r"[a-z]", flt0):      # family-level: generated whenever a filter might concern it
         cases += direct_cases(ctx)
+        cases += direct_life_cases(ctx)
     flt = os.environ.get("VERIF_C10_CELLS")      # development aid for mutation self-tests only: keep the cells matching a regex
     if flt:
         cases = [c for c in cases if re.search(flt, c.cell)]
@@ -1957,10 +2260,14 @@ def classify(meta, detail):
         return "%s|validation-in-state" % site(iface)
     if op == "probe":
         return "exp.Conjugate|probe-decision"
-    if op == "approx":
+    if op in ("approx", "approx2d"):
         return "%s|gamma-parameters" % site(iface)
     if op in ("direct", "direct_refusal"):
         return "exp.Direct|step-is-not-target-sample"
+    if op == "direct_life":
+        return "exp.Direct|chain-is-not-the-target-draws"
+    if op == "diffop":
+        return "LMRF|difference-operator-shape"
     if op in ("composite", "composite-refusal", "default-size"):
         return "C10|%s" % op
     return "C10"
@@ -1999,6 +2306,8 @@ def _oracle(ctx, meta):
                 return None        # the known (listed) deviation, already reported through the rate case -- not an explanation
             return orc["rate_fail"]
         return None
+    if m.get("op") == "direct_life":
+        return direct_life_observe(m["target"], m["ns"], m["nw"], m["seed"], m.get("initial_point"))[2]
     if m.get("op") == "validate" and m["spec"]["prior"]["kind"] == "gamma" and m["spec"]["prior"].get("dim", 1) != 1 and m["spec"].get("posterior", True):
         spec, iface = m["spec"], m["iface"]
         try:
@@ -2085,6 +2394,19 @@ def replay(ctx, meta):
             orc = oracle_sample(T, spec, ga[0], 1.0 / ga[1])
             print("target-implied : shape %r rate %r  (%s)" % (orc["k"], orc["r"], orc["how"]))
             print("oracle         :", orc["form_fail"] or orc["shape_fail"] or orc["rate_fail"] or "the drawn Gamma is proportional to the target")
+    elif op == "direct_life":
+        table, obs, fail, ip_used = direct_life_observe(m["target"], m["ns"], m["nw"], m["seed"], m.get("initial_point"))
+        print("target's own consecutive sample() results under the stream (None = raises):")
+        for k, t in enumerate(table):
+            print("   call %d:" % k, None if t is None else [float(v) for v in t])
+        print("implementation: Direct(target%s).sample(%d).warmup(%d) ->" % (", initial_point" if m.get("initial_point") else "", m["ns"], m["nw"]), obs[:1500])
+        print("oracle         :", fail or "the chain is the target's draws 1.. on the stream (call 0 = validation draw)")
+    elif op == "diffop":
+        from cuqi.distribution import LMRF
+        with QUIET:
+            d = LMRF(0, 0.5, geometry=m["n"], bc_type=m["bc"])
+        print("implementation: LMRF._diff_op (%s, n=%d) =" % (m["bc"], m["n"]))
+        print(np.column_stack([np.asarray(d._diff_op @ e, dtype=float) for e in np.eye(m["n"])]))
     elif op == "probe":
         import cuqi.experimental.mcmc._conjugate as MC
         f = mk_callable(m["dep"], "s")
